@@ -31,6 +31,10 @@ Section Commit.
     (if P (tick_of h c) (tick_of h c) then count (fun pl => l_born (snd pl) =? c) (all_lines h) else 0)
     - count (fun pl => (l_killer (snd pl) =? c) && P (tick_of h c) (birth_tick h (snd pl))) (all_lines h).
 
+  (* the commit gives birth to or kills some line *)
+  Definition event (c : Z) : bool :=
+    existsb (fun pl => (l_born (snd pl) =? c) || (l_killer (snd pl) =? c)) (all_lines h).
+
   Definition bgood (last : option Z) (b : branch) : Prop :=
     forall pl, In pl (h_paths h) ->
       pgood (old_exists A last (snd pl)) (old_alive A last) val (b_files b) (fst pl) (snd pl).
@@ -174,18 +178,73 @@ Section Commit.
       intros l Hl. rewrite (del_iff p seq l Hp Hl). reflexivity.
     Qed.
 
+    Lemma existsb_count {X} (f : X -> bool) l : existsb f l = (0 <? count f l).
+    Proof.
+      induction l as [|x l IH]; [reflexivity|]. cbn [existsb]. rewrite count_cons, IH.
+      pose proof (count_nonneg f l). destruct (f x); cbn [orb]; [symmetry; apply Z.ltb_lt; lia|].
+      destruct (Z.ltb_spec 0 (count f l)), (Z.ltb_spec 0 (0 + count f l)); auto; lia.
+    Qed.
+
+    Lemma pflag_event p seq : In (p, seq) (h_paths h) ->
+      pflag A last c val seq = existsb (fun x => (l_born x =? c) || (l_killer x =? c)) seq.
+    Proof.
+      intros Hp. unfold pflag.
+      assert (EI : cntI (old_alive A last) (aliveb A c) seq = count (fun x => l_born x =? c) seq).
+      { unfold cntI. apply count_ext_in. intros x Hx. apply (ins_iff p seq x Hp Hx). }
+      assert (ED : Z.of_nat (length (deadv (old_alive A last) (aliveb A c) val seq)) = count (fun x => l_killer x =? c) seq).
+      { unfold deadv, count. rewrite map_length. f_equal. f_equal. apply filter_ext_in. intros x Hx. apply (del_iff p seq x Hp Hx). }
+      assert (Esplit : existsb (fun x => (l_born x =? c) || (l_killer x =? c)) seq =
+                       (0 <? count (fun x => l_born x =? c) seq + count (fun x => l_killer x =? c) seq)).
+      { rewrite existsb_count. pose proof (count_nonneg (fun x => l_born x =? c) seq). pose proof (count_nonneg (fun x => l_killer x =? c) seq).
+        induction seq as [|x r IH]; [reflexivity|]. rewrite !count_cons in *.
+        assert (In (p, r) (h_paths h) -> True) by auto.
+        clear IH. pose proof (count_nonneg (fun x => l_born x =? c) r). pose proof (count_nonneg (fun x => l_killer x =? c) r).
+        pose proof (count_nonneg (fun x0 => (l_born x0 =? c) || (l_killer x0 =? c)) r).
+        assert (Hle : count (fun x0 => (l_born x0 =? c) || (l_killer x0 =? c)) r = 0 <->
+                      count (fun x => l_born x =? c) r + count (fun x => l_killer x =? c) r = 0).
+        { clear. induction r as [|y r IH]; [cbn; tauto|]. rewrite !count_cons.
+          pose proof (count_nonneg (fun x => l_born x =? c) r). pose proof (count_nonneg (fun x => l_killer x =? c) r).
+          pose proof (count_nonneg (fun x0 => (l_born x0 =? c) || (l_killer x0 =? c)) r).
+          destruct (l_born y =? c), (l_killer y =? c); cbn [orb]; lia. }
+        destruct (l_born x =? c), (l_killer x =? c); cbn [orb];
+        destruct (Z.ltb_spec 0 (1 + count (fun x0 => (l_born x0 =? c) || (l_killer x0 =? c)) r));
+        destruct (Z.ltb_spec 0 (0 + count (fun x0 => (l_born x0 =? c) || (l_killer x0 =? c)) r));
+        try lia;
+        match goal with |- _ = (0 <? ?e) => destruct (Z.ltb_spec 0 e) end; auto; try lia. }
+      destruct (old_exists A last seq) eqn:Eo, (path_exists A c seq) eqn:En.
+      - rewrite EI, ED, Esplit. reflexivity.
+      - rewrite (exists_mono seq Eo) in En. discriminate.
+      - (* a new path: some line is born at c *)
+        symmetry. unfold path_exists in En. apply existsb_exists in En. destruct En as (x & Hx & Ex).
+        apply existsb_exists. exists x. split; auto.
+        rewrite H1 in Ex. apply orb_prop in Ex. destruct Ex as [Ex|Ex].
+        + rewrite Ex. reflexivity.
+        + exfalso. unfold old_exists in Eo. unfold anc_last in Ex. destruct last as [l0|] eqn:El; [|discriminate].
+          assert (existsb (fun l => ancb A l0 (l_born l)) seq = true) by (apply existsb_exists; eauto).
+          unfold path_exists in Eo. congruence.
+      - (* absent: no line of the path is born at c or killed by c *)
+        symmetry. destruct (existsb (fun x => (l_born x =? c) || (l_killer x =? c)) seq) eqn:Ee; [|reflexivity].
+        apply existsb_exists in Ee. destruct Ee as (x & Hx & Ex). exfalso.
+        apply orb_prop in Ex. destruct Ex as [Ex|Ex].
+        + pose proof (ins_iff p seq x Hp Hx) as Hi. rewrite Ex in Hi. apply andb_prop in Hi. destruct Hi as [_ Ha].
+          pose proof (new_not_exists A c seq En x Hx). congruence.
+        + pose proof (del_iff p seq x Hp Hx) as Hd. rewrite Ex in Hd. apply andb_prop in Hd. destruct Hd as [Ha _].
+          pose proof (old_not_exists A last seq Eo x Hx). congruence.
+    Qed.
+
     Theorem consume_good b s b' s' :
       bgood last b ->
       consume cf (znth 0 aidx c) (tick_of h c) false (changes_of h A last c) b s = Ok (b', s') ->
       bgood (Some c) b' /\ (forall P, wsum P (s_gh s') = wsum P (s_gh s) + contrib P c) /\
-      (forall T, gh_ok T (s_gh s) -> tick_of h c <= T -> gh_ok T (s_gh s')).
+      (forall T, gh_ok T (s_gh s) -> tick_of h c <= T -> gh_ok T (s_gh s')) /\
+      (forall x, In x (keys (s_gh s')) <-> In x (keys (s_gh s)) \/ (event c = true /\ x = tick_of h c)).
     Proof.
       intros Hg E. unfold consume in E.
       set (b1 := on_new_tick (mkBranch (b_files b) (b_merged b) (b_mauthor b) (tick_of h c) (b_prev b))) in *.
       destruct (handle_changes cf (znth 0 aidx c) (changes_of h A last c) b1 s) as [[b2 s2]| |] eqn:E2; try discriminate.
       injection E as <- <-. unfold changes_of in E2.
       assert (Hb1t : b_tick b1 = tick_of h c) by reflexivity.
-      destruct (paths_step cf A last c val (znth 0 aidx c) (h_paths h) b1 s b2 s2 paths_nodup) as (Q1 & Q2 & Q3 & Q4 & Q5 & Q6 & Q7); auto.
+      destruct (paths_step cf A last c val (znth 0 aidx c) (h_paths h) b1 s b2 s2 paths_nodup) as (Q1 & Q2 & Q3 & Q4 & Q5 & Q6 & Q7 & Q8); auto.
       { intros pl Hin. apply exists_mono. }
       rewrite Hb1t in *.
       set (t := pack cf (znth 0 aidx c) (tick_of h c)) in *.
@@ -193,7 +252,7 @@ Section Commit.
       assert (Htn : is_mark t = false).
       { unfold t. rewrite is_mark_pack by (auto; unfold mark in *; lia). apply Z.eqb_neq. lia. }
       assert (Htt : tp cf t = tick_of h c) by (unfold t; apply tp_pack; auto; unfold mark in *; lia).
-      split; [|split].
+      split; [|split; [|split]].
       - intros [p seq] Hin. specialize (Q1 (p, seq) Hin). cbn [fst snd] in *. unfold pgood in *.
         change (old_exists A (Some c) seq) with (path_exists A c seq).
         destruct (path_exists A c seq); [|exact Q1]. destruct Q1 as [hd Q1]. exists hd. cbn [b_files]. rewrite Q1.
@@ -222,6 +281,21 @@ Section Commit.
           split; [apply (tick_nonneg h Hcf); auto|]. apply (anc_ticks h Hcf); auto.
           rewrite H1. rewrite old_alive_eq in Ho. apply andb_prop in Ho. destruct Ho as [Ho _]. rewrite Ho.
           apply orb_true_r.
+      - assert (Hnm : is_mark t = false -> forall pl l, In pl (h_paths h) -> In l (snd pl) -> old_alive A last l = true -> is_mark (val l) = false).
+        { intros _ [p seq] l Hin Hl _. exact (proj1 (val_nomark p seq l Hin Hl)). }
+        destruct (Q8 Hnm) as [_ K]. specialize (K Htn). cbn [s_gh]. intros x. rewrite (K x), Htt.
+        assert (Eev : existsb (fun pl => pflag A last c val (snd pl)) (h_paths h) = event c).
+        { unfold event, all_lines. clear - H1 H2 Hc Hlast Hcf Hmark Haidx.
+          assert (G : forall paths, (forall pl, In pl paths -> In pl (h_paths h)) ->
+                    existsb (fun pl => pflag A last c val (snd pl)) paths =
+                    existsb (fun pl => (l_born (snd pl) =? c) || (l_killer (snd pl) =? c))
+                            (flat_map (fun pl => map (fun l => (fst pl, l)) (snd pl)) paths)).
+          { induction paths as [|[p seq] r IH]; intros Hsub; [reflexivity|].
+            cbn [existsb flat_map fst snd]. rewrite existsb_app, IH by (intros; apply Hsub; right; auto).
+            f_equal. rewrite (pflag_event p seq (Hsub (p, seq) (or_introl eq_refl))).
+            clear. induction seq as [|x r IH]; [reflexivity|]. cbn [map existsb snd]. rewrite IH. reflexivity. }
+          apply G. auto. }
+        rewrite Eev. tauto.
     Qed.
   End Step.
 End Commit.
